@@ -120,3 +120,58 @@ pub fn search_lexeme() -> Option<Value> {
     } } } }
     None
 }
+
+// ---------------------------------------------------------------- the start-state stack (unit c09_lexer)
+const STACK_SPEC: &str = "%s A B\n%%\n<A>q 'QA'\n<B>q 'QB'\nq 'Q0'\na <+A>'PA'\nb <+B>'PB'\ni <+INITIAL>'PI'\nA <A>'RA'\nB <B>'RB'\nI <INITIAL>'RI'\np <-A>'POP'\n";
+/// Every letter of `input` is one lexeme of the fixed specification above: a / b / i push A / B / INITIAL, A / B / I
+/// replace the whole stack by that state, p pops (an emptied stack is INITIAL again), q is named after the state on top.
+pub fn run_stack(input: &str) -> Outcome {
+    use lrpar::{LexError, Lexeme, Lexer};
+    crate::note_case("c09_stack", json!({"input": input}));
+    let mut stack: Vec<usize> = vec![0];
+    let mut want: Vec<String> = Vec::new();
+    for c in input.chars() {
+        match c {
+            'q' => want.push(["Q0", "QA", "QB"][*stack.last().unwrap()].to_string()),
+            'a' => { want.push("PA".into()); stack.push(1); }
+            'b' => { want.push("PB".into()); stack.push(2); }
+            'i' => { want.push("PI".into()); stack.push(0); }
+            'A' => { want.push("RA".into()); stack.clear(); stack.push(1); }
+            'B' => { want.push("RB".into()); stack.clear(); stack.push(2); }
+            'I' => { want.push("RI".into()); stack.clear(); stack.push(0); }
+            _ => { want.push("POP".into()); stack.pop(); if stack.is_empty() { stack.push(0); } }
+        }
+    }
+    let expected = format!("{:?}", want);
+    let r = catch_unwind(AssertUnwindSafe(|| {
+        let mut def = LRNonStreamingLexerDef::<LT>::from_str(STACK_SPEC).map_err(|e| format!("the fixed specification was refused: {:?}", e.iter().map(|x| x.to_string()).collect::<Vec<_>>()))?;
+        let names: Vec<String> = def.iter_rules().filter_map(|r| r.name().map(|s| s.to_string())).collect();
+        let m: HashMap<&str, u32> = names.iter().enumerate().map(|(k, n)| (n.as_str(), k as u32)).collect();
+        let _ = def.set_rule_ids(&m);
+        let lexer = def.lexer(input);
+        let mut got: Vec<String> = Vec::new();
+        for l in lexer.iter() { match l { Ok(l) => got.push(names[l.tok_id() as usize].clone()), Err(e) => { got.push(format!("error at {}", e.span().start())); break; } } }
+        Ok::<_, String>(got)
+    }));
+    match r {
+        Err(_) => Outcome { fails: true, observed: "panic".into(), expected },
+        Ok(Err(e)) => Outcome { fails: true, observed: e, expected },
+        Ok(Ok(got)) => Outcome { fails: got != want, observed: format!("{:?}", got), expected },
+    }
+}
+pub fn search_stack(tier: &str) -> Option<Value> {
+    let letters = ['a', 'b', 'i', 'A', 'B', 'I', 'p', 'q'];
+    let maxlen = if tier == "thorough" { 6 } else { 5 };
+    for len in 1..=maxlen {
+        let mut idx = vec![0usize; len];
+        loop {
+            let s: String = idx.iter().map(|&k| letters[k]).collect();
+            let o = run_stack(&s);
+            if o.fails { return Some(witness("c09_stack", json!({"input": s}), &o)); }
+            let mut p = len;
+            loop { if p == 0 { break; } p -= 1; if idx[p] + 1 < letters.len() { idx[p] += 1; break; } else { idx[p] = 0; if p == 0 { p = usize::MAX; break; } } }
+            if p == usize::MAX { break; }
+        }
+    }
+    None
+}
